@@ -49,7 +49,7 @@ CLAIMED.update({
          "note": "next_by_line (the three breadth-first methods) is BOUNDED only. One known finding (abort on the last line -> completed true).",
          "tech": BT},
  "C20": {"cat": "other", "text": "Proved: Reference._variable_value returns the stored final value whatever it is (0, False, '' included) and raises exactly when the variable is unknown; get_last_named_result returns the last added result; SourceMode.value reads 'preceding'. Bounded: source-mode preceding chains (every suffix) and variable/tracked/results references on the real CsvPaths.",
-         "note": "Proved too: _load_csvpath parses '$' + the predecessor's data.csv + match part in source-mode preceding, the named file otherwise, the referenced data.csv for a results reference, and reads a data.csv in the dialect it is written in; ResultsManager._find_instance returns an exact run directory name as it is and resolves :last/:first in the given directory at the time of the call. Header references, results references by :last/:first/exact name, a semicolon-delimited chain and the tracked-variable variant of _variable_value are BOUNDED only.",
+         "note": "Proved too: _load_csvpath parses '$' + the predecessor's data.csv + match part in source-mode preceding, the named file otherwise, the referenced data.csv for a results reference, and reads a data.csv in the dialect it is written in; ResultsManager._find_instance returns an exact run directory name as it is and resolves :last/:first in the given directory at the time of the call; data_file_for_reference maps $group.results.<run directory>.<member> to <archive>/<group>/<run directory>/<member>/data.csv and raises exactly when one of those four does not exist. Header references, results references by :last/:first/exact name, a semicolon-delimited chain and the tracked-variable variant of _variable_value are BOUNDED only.",
          "tech": BT},
 })
 CLAIMED.update({
